@@ -24,6 +24,43 @@ fn phase(d: u64) -> TxPhase {
 
 pub fn handle(op: &str, req: &Value) -> Option<Value> {
     Some(match op {
+        // C06 Q1: vectors of the given lengths stored into a collection, the dimension (if any) configured afterwards, one search:
+        // every hit has the query's dimension, hits are ordered best first, exactly min(top_k, matching) of them
+        "vector_collection_search" => {
+            use vector_engine::{VectorCollectionConfig, VectorEngine};
+            let e = VectorEngine::new();
+            let lens: Vec<usize> = req["lens"].as_array().into_iter().flatten().filter_map(Value::as_u64).map(|x| x as usize).collect();
+            let qn = req["query_len"].as_u64().unwrap_or(2) as usize;
+            for (i, n) in lens.iter().enumerate() {
+                let v: Vec<f32> = (0..*n).map(|j| 1.0 + (i * 3 + j) as f32).collect();
+                if let Err(err) = e.store_in_collection("c", &format!("k{i}"), v) { return Some(json!({"error": err.to_string()})); }
+            }
+            if let Some(d) = req["cfg_dim"].as_u64() {
+                let _ = e.create_collection("c", VectorCollectionConfig::default().with_dimension(d as usize));
+            }
+            let q: Vec<f32> = (0..qn).map(|j| 1.0 + j as f32).collect();
+            let k = req["top_k"].as_u64().unwrap_or(10).min(1000) as usize;
+            let matching = lens.iter().filter(|n| **n == qn).count();
+            let mut bad: Vec<String> = vec![];
+            match e.search_in_collection("c", &q, k) {
+                Ok(hits) => {
+                    for h in &hits {
+                        let i: usize = h.key.trim_start_matches('k').parse().unwrap_or(99);
+                        if lens.get(i).copied() != Some(qn) { bad.push(format!("hit {} has dimension {:?}, the query {qn}", h.key, lens.get(i))); }
+                    }
+                    if hits.len() != k.min(matching) { bad.push(format!("{} hits, expected {}", hits.len(), k.min(matching))); }
+                    if hits.windows(2).any(|w| w[0].score < w[1].score) { bad.push("hits are not ordered best first".into()); }
+                    let mut keys: Vec<&String> = hits.iter().map(|h| &h.key).collect();
+                    keys.sort(); keys.dedup();
+                    if keys.len() != hits.len() { bad.push("a key is returned twice".into()); }
+                }
+                Err(err) => {
+                    let legit = k == 0 || req["cfg_dim"].as_u64().is_some_and(|d| d as usize != qn);
+                    if !legit { bad.push(format!("search refused: {err}")); }
+                }
+            }
+            json!({"problems": bad, "violates": !bad.is_empty()})
+        },
         "dijkstra_cmp" => {
             let g = |n: &str| (f64::from_bits(hexu(&req[n]["cost_bits"])), req[n]["node_id"].as_u64().unwrap_or(0));
             let (a, b, c) = (g("a"), g("b"), g("c"));
